@@ -142,3 +142,5 @@ func TestVerifReplayC06(t *testing.T) {
 		mustFail("old token carrying the sealed creation time of a younger token", tok, nodeenrollment.WithMaximumServerLedActivationTokenLifetime(25*time.Millisecond))
 	}
 }
+
+func TestVerifReplayC06TokenFaults(t *testing.T) { vrTokenUnderFaults(t) }
